@@ -11,7 +11,6 @@ import (
 	pbredis "github.com/samaritan-proxy/samaritan/pb/config/protocol/redis"
 	"github.com/samaritan-proxy/samaritan/pb/config/service"
 	"github.com/samaritan-proxy/samaritan/proc/redis"
-	"github.com/samaritan-proxy/samaritan/stats"
 
 	"verifharness/hx"
 )
@@ -45,60 +44,6 @@ func (*c20) Rule() string {
 		"Non-trivial = contains a redirection, a failure, a rejection or a stop with open connections; distinct by op line"
 }
 
-func counterMap(prefix string) map[string]uint64 {
-	m := map[string]uint64{}
-	for _, c := range stats.Store().Counters() {
-		if strings.HasPrefix(c.Name(), prefix) {
-			m[strings.TrimPrefix(c.Name(), prefix)] = c.Value()
-		}
-	}
-	for _, g := range stats.Store().Gauges() {
-		if strings.HasPrefix(g.Name(), prefix) {
-			m[strings.TrimPrefix(g.Name(), prefix)] = g.Value()
-		}
-	}
-	return m
-}
-
-// counterHandles scans the process-wide store once and returns readers for the metrics under prefix:
-// the store keeps every scope ever created, so scanning it on every poll makes long runs quadratic.
-func counterHandles(prefix string) func(name string) uint64 {
-	cs := map[string]*stats.Counter{}
-	gs := map[string]*stats.Gauge{}
-	scan := func() {
-		for _, c := range stats.Store().Counters() {
-			if strings.HasPrefix(c.Name(), prefix) {
-				cs[strings.TrimPrefix(c.Name(), prefix)] = c
-			}
-		}
-		for _, g := range stats.Store().Gauges() {
-			if strings.HasPrefix(g.Name(), prefix) {
-				gs[strings.TrimPrefix(g.Name(), prefix)] = g
-			}
-		}
-	}
-	misses := 0
-	return func(name string) uint64 {
-		for try := 0; try < 2; try++ {
-			if c, ok := cs[name]; ok {
-				return c.Value()
-			}
-			if g, ok := gs[name]; ok {
-				return g.Value()
-			}
-			// the store lists a metric once it has been used: look again (not on every poll of a metric that does not exist yet)
-			if try == 0 {
-				misses++
-				if misses > 3 && misses%16 != 0 {
-					return 0
-				}
-				scan()
-			}
-		}
-		return 0
-	}
-}
-
 var c20Cmds = []string{"get", "set", "mget", "mset", "del", "ping"}
 
 func (c *c20) execRq(toks []string) string {
@@ -117,7 +62,23 @@ func (c *c20) execRq(toks []string) string {
 		}
 	}
 	prefix := rig.ScopeName()
-	before := counterMap(prefix)
+	if fresh {
+		defer hx.DropScopes(prefix)
+	}
+	metric := hx.Metrics(prefix)
+	c20Names := []string{"downstream.rq_total", "downstream.rq_success_total", "downstream.rq_failure_total",
+		"upstream.rq_total", "upstream.rq_success_total", "upstream.rq_failure_total", "upstream.moved"}
+	for _, cn := range c20Cmds {
+		c20Names = append(c20Names, "redis."+cn+".total", "redis."+cn+".success", "redis."+cn+".error")
+	}
+	snapshot := func() map[string]uint64 {
+		m := map[string]uint64{}
+		for _, n := range c20Names {
+			m[n] = metric(n)
+		}
+		return m
+	}
+	before := snapshot()
 	pending := 0
 	for ri, t := range toks {
 		if t == "Q" {
@@ -247,7 +208,7 @@ func (c *c20) execRq(toks []string) string {
 			pending++
 		}
 	}
-	after := counterMap(prefix)
+	after := snapshot()
 	d := func(k string) uint64 { return after[k] - before[k] }
 	tri := func(p string, names ...string) string {
 		return fmt.Sprintf("%d,%d,%d", d(p+names[0]), d(p+names[1]), d(p+names[2]))
@@ -294,8 +255,9 @@ func (c *c20) execCx(f []string) string {
 		ln.Close()
 		return "procerr"
 	}
+	defer hx.DropScopes("service." + p.Name() + ".") // runs after the Stop registered below
 	prefix := "service." + p.Name() + "."
-	metric := counterHandles(prefix)
+	metric := hx.Metrics(prefix)
 	type pair struct{ cli, be net.Conn }
 	var conns []*pair
 	stopped := false
